@@ -1,7 +1,7 @@
 ---------------------------- MODULE ClientStartMC ----------------------------
 EXTENDS ClientStart
 AllScenarios == {[kind |-> "remote", step |-> st, how |-> "na"] :
-                    st \in {"healthy", "refuse_data", "unknown_ctx", "conn", "kill_hdr", "kill_self", "kill_addr", "kill_spawn"}}
+                    st \in {"healthy", "refuse_data", "unknown_ctx", "conn", "kill_hdr", "kill_self", "kill_addr", "kill_spawn", "kill_window"}}
                 \cup {[kind |-> "remote", step |-> st, how |-> h] :
                     st \in {"hdr", "self", "addr0", "addrM", "addrL", "info0", "infoM", "infoL"}, h \in {"fin", "rst"}}
                 \cup {[kind |-> "process", step |-> st, how |-> "na"] : st \in {"healthy", "exit_early"}}
